@@ -19,7 +19,8 @@ void vp_enter(u32 tid, u32 w) { int k = mtx_of(tid); VP_ASSERT(holders[k] == 0, 
 void vp_leave(u32 tid, u32 w) { holders[mtx_of(tid)]--; }
 void vp_try_result(u32 tid, u32 ok) {}
 #include "addr_stubs.h"
-u8 _ZN3tbb6detail2d021timed_spin_wait_untilIZNS0_2d115waitable_atomicIbE4waitEbmSt12memory_orderEUlvE_EEbT_(struct MTX_WAIT_CLOSURE* closure) {
+#include "closure_stub.h"
+VP_CLOSURE_STUB(_ZN3tbb6detail2d021timed_spin_wait_untilIZNS0_2d115waitable_atomicIbE4waitEbmSt12memory_orderEUlvE_EEbT_) {
   VP_POLL(_ZNK3tbb6detail2d118delegated_functionIZNS1_15waitable_atomicIbE4waitEbmSt12memory_orderEUlvE_EclEv, closure)
 }
 #define TA vp_thr_mutex_a
